@@ -96,6 +96,7 @@ let rec parse_schema (toks : Stdlib.String.t list) : schema * Stdlib.String.t li
   | "S" :: lo :: hi :: r -> (SStr (on lo, on hi), r)
   | "B" :: r -> (SBool, r)
   | "Z" :: r -> (SNullT, r)
+  | "Y" :: r -> (SAnyT, r)
   | "E" :: k :: r -> let (xs, r') = many (int_of_string k) r (function t :: q -> (str_of_tok t, q) | [] -> failwith "enum") in (SEnum xs, r')
   | "?" :: r -> let (s, r') = parse_schema r in (SNullable s, r')
   | "A" :: lo :: hi :: r -> let (s, r') = parse_schema r in (SArr (s, on lo, on hi), r')
@@ -113,6 +114,7 @@ let rec parse_json (toks : Stdlib.String.t list) : json * Stdlib.String.t list =
   | "t" :: r -> (VBool true, r)
   | "f" :: r -> (VBool false, r)
   | "i" :: z :: r -> (VInt (z_of_int (int_of_string z)), r)
+  | "d" :: z :: r -> (VFlt (z_of_int (int_of_string z)), r)
   | "s" :: t :: r -> (VStr (str_of_tok t), r)
   | "a" :: k :: r -> let (xs, r') = many (int_of_string k) r parse_json in (VArr xs, r')
   | "o" :: k :: r ->
@@ -266,6 +268,9 @@ let handle line =
       let (sch, _) = parse_schema (words st) in
       let (v, _) = parse_json (words jt) in
       Stdlib.String.concat "" (List.map (fun b -> if b then "1" else "0") (verdicts sch v))
+  | ["infer"; jt] ->
+      let (v, _) = parse_json (words jt) in
+      ascii_of_str (infer_text v) ^ "\t" ^ ascii_of_str (infer_gen_text v) ^ "\t" ^ (if infer_accepts v then "1" else "0")
   | ["korder"; imported; models] ->
       (* imported: n,n,..  models: name:b,b;name:;...  -> names in order, or FUEL *)
       let nums t = if t = "" || t = "-" then [] else List.map (fun x -> n_of_int (int_of_string x)) (Stdlib.String.split_on_char ',' t) in
